@@ -2,6 +2,7 @@
 From CV Require Import Proofs.SchedP5.
 From CV Require Import Model.Base Model.Events Model.Contract Model.Normalize Proofs.BaseP Proofs.NormalizeP Proofs.NormalizeP2
   Proofs.NormalizeP3 Proofs.NormalizeP5 Proofs.NormalizeP6.
+From CV Require Proofs.NormalizeP4h.
 From CV Require Proofs.Compose Proofs.PipelineP2.
 From Coq Require Import Permutation.
 
@@ -123,3 +124,33 @@ Theorem C11_run_finished_comes_last :
     exists X m, concat (nrun es) = X ++ [(m, EvFinished)] /\ existsb is_finished (map snd X) = false.
 Proof. exact PipelineP2.finished_comes_last. Qed.
 Print Assumptions C11_run_finished_comes_last.
+
+(* SEQUENTIAL ORDER, THE GENERAL CLAUSE: for EVERY complete stream obeying the Runner contract — every linearisation
+   of the events of any set of features / rules / scenarios / retry attempts that respects happened-before,
+   including interleavings runner::Basic does not produce — what Normalize forwards is accepted by the SEQUENTIAL
+   contract automaton: each feature's events contiguous, each rule's contiguous inside its feature, each attempt's
+   contiguous (attempt k before k+1), brackets properly nested, run-Finished last (NormalizeP4..P4h: the buffered
+   structure is, at every call, a valid continuation of the output automaton's state — `feats_static` /
+   `feats_open` — and the four nested emission loops replay a prefix of it) *)
+Theorem C11_output_is_in_sequential_order :
+  forall es, contract (map snd es) = true -> normalized (map snd (concat (nrun es))) = true.
+Proof. exact NormalizeP4h.normalize_output_is_sequential. Qed.
+Print Assumptions C11_output_is_in_sequential_order.
+
+(* ... so for every complete run of the scheduler model *)
+Theorem C11_runner_stream_comes_out_sequential :
+  forall cf ls s tr (es : list mev),
+    Sched.exec cf ls = Some (s, tr) -> NoDup (SchedP7.feature_ids ls) -> NoDup (SchedP4.inserted_ids ls) ->
+    Sched.pc s = Sched.Done -> map snd es = tr ->
+    normalized (map snd (concat (nrun es))) = true.
+Proof. exact Compose.runner_stream_is_normalized_into_sequential_order. Qed.
+Print Assumptions C11_runner_stream_comes_out_sequential.
+
+Example C11_sequential_order_nonvacuous :
+  let es := [(1, EvStarted); (2, EvFeatS 1); (3, EvFeatS 2); (4, EvScen 2 None 7 None ScStarted);
+             (5, EvScen 1 None 5 (Some (0, 1)) ScStarted); (6, EvScen 2 None 7 None ScFinished);
+             (7, EvScen 1 None 5 (Some (0, 1)) ScFinished); (8, EvScen 1 None 5 (Some (1, 0)) ScStarted);
+             (9, EvFeatF 2); (10, EvScen 1 None 5 (Some (1, 0)) ScFinished); (11, EvFeatF 1); (12, EvFinished)] in
+  contract (map snd es) = true /\ normalized (map snd es) = false /\
+  map fst (concat (nrun es)) = [1; 2; 5; 7; 8; 10; 11; 3; 4; 6; 9; 12].
+Proof. vm_compute. repeat split; reflexivity. Qed.
